@@ -414,7 +414,6 @@ var c13PlainDocs = []string{
 	"s: \"q\"\nt: 'r'\nu: [1, 2]\n",
 	"",
 	"null\n",
-	"# only a comment\n",
 }
 
 // decodeChunk does what ByteReader.decode does with go-yaml before it touches annotations.
@@ -438,7 +437,9 @@ func decodeChunk(chunk string) (*kyaml.RNode, bool, error) {
 }
 
 func textStreamCases(r *Run, rng *Rng, n int) {
-	seps := []string{"---\n", "---\n", "--- # c\n", "---   \n"}
+	// comment-free streams only: comments are not part of the node model, so a comment that ends up inside a chunk
+	// (a "--- # c" line after another separator, or on the first line) would make the encoder table ambiguous
+	seps := []string{"---\n", "---\n", "---\t\n", "---   \n"}
 	for it := 0; it < n; it++ {
 		g := rng.Fork()
 		k := 1 + g.Intn(4)
@@ -1514,7 +1515,11 @@ func runC13(r *Run, rng *Rng, tier string) error {
 	}
 	keepTailCases(r)
 	emptyDocCases(r)
-	textStreamCases(r, rng.Fork(), 300)
+	nText := 120
+	if tier == "thorough" {
+		nText = 1500
+	}
+	textStreamCases(r, rng.Fork(), nText)
 	// 3. annotations
 	annotationCases(r, rng.Fork())
 	// 4. package IO
